@@ -48,6 +48,17 @@ Theorem C02_no_orphan : forall s,
 Proof. exact no_orphan_lemma. Qed.
 Print Assumptions C02_no_orphan.
 
+(* handlers_waiting_for_calls_finish: a handler may itself issue a call on the session it was
+   entered on and wait for its completion (EHWait; any handler, any call of the session).  In a
+   terminal state in which the connection is lost no handler is left waiting (nor running):
+   the disconnect path cancels the pending calls before it waits for the handlers. *)
+Theorem C02_handlers_waiting_for_calls_finish : forall s,
+  reach_sess s -> terminal s = true ->
+  (conn s = false \/ sock s = false \/ closed (st s) = true) ->
+  forall j h, nth_error (hctxs s) j = Some h -> k_pc h = KDone.
+Proof. exact handlers_finish_lemma. Qed.
+Print Assumptions C02_handlers_waiting_for_calls_finish.
+
 (* ---- the pinned tree ---- *)
 (* read loop's early exit leaves the bound call's mutex locked: after the connection is lost
    the disconnect path blocks on it, the state is terminal and the call is still pending *)
@@ -65,6 +76,17 @@ Theorem C02_complete_at_most_once_prefix_refuted :
 Proof. exact at_most_once_prefix_refuted_lemma. Qed.
 Print Assumptions C02_complete_at_most_once_prefix_refuted.
 
+(* cancel loop only after the handler wait (before 33a3798): a handler waits for its own call,
+   the connection is lost, the disconnect path waits for the handler - nobody can move, the
+   call is pending for ever *)
+Theorem C02_no_orphan_cancel_after_wait_refuted :
+  exists s c h, srun_cfg cfg_nopre live_session (wait_history ++ [EReader true]) = Some s /\
+                terminal_cfg cfg_nopre s = true /\ conn s = false /\ rd s = D3 Ok /\ ctxWG s = 1 /\
+                nth_error (calls s) 0 = Some c /\ c_dones c = 0 /\ c_tab c = true /\
+                nth_error (hctxs s) 0 = Some h /\ k_pc h = K1w 0.
+Proof. exact cancel_after_wait_refuted_lemma. Qed.
+Print Assumptions C02_no_orphan_cancel_after_wait_refuted.
+
 (* the same histories on the repaired machine *)
 Example C02_hang_fixed :
   exists s c, srun live_session (issue_and_write ++ [EFrame (FrReply 0 FErr0); EReader true; EReader true; EReader true;
@@ -76,3 +98,11 @@ Example C02_dup_fixed :
   exists s c, srun live_session (firstn 16 dup_history) = Some s /\
               nth_error (calls s) 0 = Some c /\ c_dones c = 1 /\ c_sends c = 1 /\ rd s = R3 (XMsg KUnbound).
 Proof. exact dup_fixed. Qed.
+
+Example C02_wait_fixed :
+  exists s c h, srun live_session (wait_history ++ [EReader true; EVisit 0; EReader true]
+                                   ++ repeat (EHandler 0 false WOk) 4 ++ repeat (EReader true) 5) = Some s /\
+                terminal s = true /\ rd s = RDone /\ st s = PassiveClosed /\
+                nth_error (calls s) 0 = Some c /\ c_dones c = 1 /\ c_stat c = StConnClosed /\
+                nth_error (hctxs s) 0 = Some h /\ k_pc h = KDone.
+Proof. exact wait_fixed. Qed.
